@@ -10,6 +10,11 @@ Decided:
               TokenKind::And, which calls the one that consumes TokenKind::Not, and never the reverse order.
   TABLE-C32c  Expr::evaluate: Or -> Iterator::any, And -> Iterator::all, Not -> logical negation of the child,
               Term -> delegation to Term::evaluate.
+  REC-C32d    the depth of the expression tree is bounded like the parser's own recursion: every consumer of Expr
+              (evaluate, token collection, the Tantivy query builder, Drop) recurses once per level. A loop that wraps
+              an expression into a recursive variant of Expr around *its own previous value* (e = Expr::Not(Box(e)))
+              grows the depth with the input without passing the depth guard, so it must not exist in the parser
+              unless the depth guard succeeds on every iteration.
 Not decided: substring/phrase matching semantics of terms (values)."""
 from . import lib
 from .facts import Place, op_place
@@ -96,6 +101,63 @@ def run(ctx):
                     % names, line=cyc[-1][2].line, sink='stack', detail='unguarded-cycle:' + '>'.join(sorted({F.fns[u].key.split('::')[-1] for u, v, c in cyc})))
         elif has_rec:
             ctx.ok('REC-C32a', pq, 'every recursion cycle of the parser passes a depth guard (%s)' % ', '.join(sorted(F.fns[g].key.split('::')[-1] for g in guards)))
+    # ---- tree depth
+    ctx.rule('REC-C32d', 'no loop wraps an Expr into a recursive Expr variant around its own previous value without the depth guard')
+    if pq is not None:
+        from . import monotone
+        rec_variants = set()
+        ex = F.adt('Expr') if hasattr(F, 'adt') else None
+        for a in F.adts_by_name.get('Expr', []):
+            if 'search::parser' in a['path'] or a['path'].endswith('parser::Expr'):
+                ex = a
+        if ex is None:
+            ctx.lost('REC-C32d', 'Expr type not found')
+        else:
+            for v in ex['variants']:
+                if any('Expr' in f['ty'] for f in v['fields']):
+                    rec_variants.add(v['name'])
+            n_ctor = 0
+            for f in reach.values():
+                loops = None
+                for bb, i, st in f.stmts():
+                    rv = st['rv']
+                    if not (rv['k'] == 'agg' and rv.get('adt') == 'Expr' and rv.get('variant') in rec_variants):
+                        continue
+                    n_ctor += 1
+                    ctx.evaluations += 1
+                    if loops is None:
+                        loops = monotone.natural_loops(f)
+                    inl = [b for h, b in loops.items() if bb in b]
+                    if not inl:
+                        continue
+                    body = min(inl, key=len)
+                    # does the wrapped operand derive from the value this aggregate is (eventually) assigned to?
+                    sl = lib.slice_back(f, rv['ops'], through_calls=True, at=(bb, i))
+                    tgt = {st['lhs']['l']}
+                    changed = True
+                    while changed:
+                        changed = False
+                        for b2, i2, s2 in f.stmts():
+                            if b2 in body and s2['rv']['k'] == 'use' and not s2['lhs'].get('p'):
+                                q = op_place(s2['rv']['a'])
+                                if q is not None and q.l in tgt and s2['lhs']['l'] not in tgt:
+                                    tgt.add(s2['lhs']['l'])
+                                    changed = True
+                    self_wrap = bool(sl.locals & tgt)
+                    guarded = any(g.local_callee in guards and g.bb in body and lib.call_success_dominates(f, g, bb) for g in f.calls())
+                    # flattening idiom: `e = match e { V(mut list) => { list.push(x); V(list) } _ => V(vec![e, x]) }` - the re-wrap in arm V
+                    # keeps the depth, the wrap in the other arm happens at most once (afterwards e is a V): depth + 1, not + n
+                    for vs in lib.variant_switches(f):
+                        if vs.get('enum') == 'Expr' and rv['variant'] in vs['arms'] and vs['bb'] in body and \
+                                ((lib.root_of(f, vs['place'].l) | {vs['place'].l}) & tgt or lib.slice_back(f, [{'c': {'l': vs['place'].l, 'p': []}}], through_calls=False, at=(vs['bb'], None)).locals & tgt):
+                            if any(lib.edge_dominates(f, vs['bb'], t, bb) for t in list(vs['arms'].values()) + [vs['otherwise']] if t is not None):
+                                guarded = True
+                    if self_wrap and not guarded:
+                        ctx.bad('REC-C32d', f, 'Expr::%s is wrapped around its own previous value inside a loop that does not pass the depth guard: the tree depth grows with the input '
+                                'and every recursive consumer of Expr (evaluate, token collection, Drop) can exhaust the stack' % rv['variant'], line=st.get('l'), sink='Expr::' + rv['variant'], detail='unbounded-tree-depth:' + rv['variant'])
+            ctx.floor('REC-C32d', n_ctor, 3, 'constructions of recursive Expr variants in the parser')
+            if not any(i['rule'] == 'REC-C32d' and i['verdict'] == 'VIOLATION' and i.get('config', 'default') == ctx.config for i in ctx.instances):
+                ctx.ok('REC-C32d', pq, 'no loop-carried self-wrapping of Expr (%d recursive constructions: %s)' % (n_ctor, ', '.join(sorted(rec_variants))))
     # ---- ladder
     consumers = {}
     for f in F.fns.values():
